@@ -289,3 +289,27 @@ Fixpoint env_items (cur : bytes) (l : bytes) : list eitem * etail :=
   end.
 Definition env_read (data : bytes) : kenv :=
   let '(its, t) := env_items [] data in {| e_items := its; e_tail := t |}.
+
+(* ------------------------------------------------------------ name(): histories on one object
+   The OS state of a process at one moment, as far as name() is concerned: comm, and either
+   a command line or -- for a zombie -- none.  Between two calls anything may change: argv[0]
+   rewritten, the title overwritten, the process turned zombie, the command line emptied. *)
+Record nstate := { n_comm : bytes; n_cmd : kcmd; n_zombie : bool }.
+Definition nproc (s : nstate) : kproc :=
+  {| p_comm := n_comm s; p_cmd := n_cmd s; p_exe := None; p_how := WENOENT; p_paths := [] |}.
+Definition view_nstate (s : nstate) : pview :=
+  if n_zombie s then view_zombie (n_comm s) false else view_proc (nproc s).
+Definition wf_nstate (s : nstate) : bool :=
+  (length (n_comm s) <=? 15)%nat && (n_zombie s || wf_cmd (n_cmd s)).
+(* the name the CURRENT state demands *)
+Definition spec_name_now (s : nstate) : bytes :=
+  if n_zombie s then n_comm s else spec_name (nproc s).
+
+Definition name_family (o : op) : bool :=
+  match o with OpName | OpRepr | OpAsDictName => true | _ => false end.
+Definition spec_name_step (so : nstate * op) : res :=
+  match snd so with
+  | OpName => RBytes (Val (spec_name_now (fst so)))
+  | OpAsDictName => ROpt (Val (Some (spec_name_now (fst so))))
+  | _ => RUnit
+  end.
